@@ -28,10 +28,11 @@ enum FaultId { F_preemption, F_child_first, F_parent_first, F_lock_contention };
 const char* const kFaultNames[] = { "preemption", "child_runs_first_at_create", "parent_runs_first_at_create", "mutex_contention" };
 enum ProbeId { P_threads_2, P_threads_3_4, P_threads_5_8, P_threads_9_16, P_job_returned, P_job_threw, P_job_with_usage,
                P_different_separators, P_job_evaluated_repeatedly, P_policy_random, P_policy_pct, P_policy_rr,
-               P_switches_over_100 };
+               P_switches_over_100, P_one_job_through_groups };
 const char* const kProbeNames[] = { "threads_2", "threads_3_to_4", "threads_5_to_8", "threads_9_to_16", "job_returned", "job_threw",
                "job_printed_usage_groups_singleton", "neighbouring_threads_with_different_separators", "job_evaluated_repeatedly",
-               "policy_random", "policy_pct", "policy_rr", "more_than_100_context_switches" };
+               "policy_random", "policy_pct", "policy_rr", "more_than_100_context_switches",
+               "one_thread_evaluates_through_the_groups_front_end" };
 
 struct Job
 {
@@ -126,6 +127,22 @@ void warmUp()
       if ((round % 8) == 1) cfg.argv.push_back( "--list-arg-vars");
       cfg.repeat = 1 + (round % 2);
       (void) recipes::evaluate( cfg);
+      if ((round % 6) == 5)
+      {
+         // the same through the Groups front end (two handlers of the singleton)
+         Json  r2 = recipe;
+         Json  s1 = Json::array(), s2 = Json::array();
+         s1.push( "R1"); s1.push( "R2");
+         s2.push( "R4");
+         Json  r1 = recipe;
+         r1[ "sets"] = s1;
+         r2[ "sets"] = s2;
+         recipes::EvalCfg  gcfg = cfg;
+         gcfg.recipe = &r1;
+         gcfg.recipe2 = &r2;
+         gcfg.repeat = 1;
+         (void) recipes::evaluate( gcfg);
+      }
    }
 }
 
@@ -160,6 +177,7 @@ public:
       const bool  constraint_clash = cfg.chance( 1, 4);
       static const char* const  hcons[] = { "all_of", "any_of", "one_of" };
       Json  threads = Json::array();
+      std::vector< std::vector< std::string>>  groups_words;
       for (long long t = 0; t < k; ++t)
       {
          Json  job = Json::object();
@@ -202,6 +220,32 @@ public:
          job[ "words"] = wj;
          job[ "repeat"] = wl.chance( 1, 5) ? wl.range( 2, 3) : 1;
          threads.push( job);
+         groups_words.push_back( words);
+      }
+      // in some runs ONE thread evaluates through the Groups front end (the
+      // process-wide singleton belongs to it alone); the handlers of the other
+      // threads stay ordinary ones, one of them asks for its usage
+      if (cfg.chance( 1, 5))
+      {
+         Json  r1 = threads.at( 0).get( "recipe"), r2 = threads.at( 0).get( "recipe");
+         Json  s1 = Json::array(), s2 = Json::array();
+         for (auto const& x : r1.get( "sets").arr())
+            if (x.s() == "R1" || x.s() == "R2" || x.s() == "R3" || x.s() == "R11") s1.push( x);
+            else if (x.s() == "R4" || x.s() == "R5" || x.s() == "R6" || x.s() == "R7" || x.s() == "R8") s2.push( x);
+         if (s1.size() == 0) s1.push( "R1");
+         if (s2.size() == 0) s2.push( "R4");
+         r1[ "sets"] = s1;
+         r2[ "sets"] = s2;
+         r2[ "constraint"] = "";
+         threads.at( 0)[ "recipe"] = r1;
+         threads.at( 0)[ "recipe2"] = r2;
+         Json  f1 = Json::array();
+         f1.push( "hfHelpShort"); f1.push( "hfHelpLong");
+         threads.at( 1)[ "flags"] = f1;
+         Json  w1 = Json::array();
+         for (auto const& w : groups_words[ 1]) w1.push( w);
+         w1.push( wl.chance( 1, 2) ? "--help" : "-h");
+         threads.at( 1)[ "words"] = w1;
       }
       plan[ "threads"] = threads;
       plan[ "sched"] = sim::genSchedule( sc, 60000 * static_cast< uint64_t>( k));
@@ -217,11 +261,18 @@ public:
       std::vector< Job>  jobs( k);
       std::vector< std::string>  seps;
       std::vector< std::string>  recipe_ids;
+      bool                       groups_job_seen = false;
       for (size_t t = 0; t < k; ++t)
       {
          const Json&  j = tj.at( t);
          Job&         job = jobs[ t];
          job.cfg.recipe = &j.get( "recipe");
+         if (j.get( "recipe2").isObj() && !groups_job_seen)
+         {
+            job.cfg.recipe2 = &j.get( "recipe2");
+            groups_job_seen = true;
+            st.probe( P_one_job_through_groups);
+         }
          job.cfg.flags = Handler::hfUsageCont;
          const Json&  fj = j.get( "flags");
          for (size_t f = 0; f < fj.size(); ++f)
